@@ -41,6 +41,14 @@ def apply_plan(tree, net, plan, rng, route=None):
             route.append(["remove", ix, proj])
             if rng.random() < 0.3:
                 route.append(["query", rng.choice(QUERIES)])
+            if rng.random() < 0.25:
+                # a derived tree is made (not in place) and dropped / a copy is continued with: the figures of the tree
+                # that is kept are its own
+                others = [k for k in range(1, net.K + 1) if k != ix]
+                if others and rng.random() < 0.6:
+                    route.append(["fork", rng.choice(others), None])
+                else:
+                    route.append(["continue-on-copy"])
         if plan and rng.random() < 0.4:
             back = rng.sample(plan, rng.randint(1, len(plan)))
             for ix, proj in back:
@@ -54,9 +62,21 @@ def apply_plan(tree, net, plan, rng, route=None):
             query(tree, step[1])
         elif step[0] == "remove":
             tree.remove_ind_(net.lab[step[1]], project=step[2])
+        elif step[0] == "fork":
+            if net.lab[step[1]] not in tree.sliced_inds:
+                side = tree.remove_ind(net.lab[step[1]])
+                side.contract_stats()
+                del side
+        elif step[0] == "continue-on-copy":
+            old = tree
+            tree = old.copy()
+            if old.sliced_inds:
+                old.unslice_all_()          # what happens to the tree left behind must not matter
+            else:
+                old.subtree_reconfigure_(subtree_size=3, maxiter=2)
         else:
             tree.restore_ind_(net.lab[step[1]])
-    return route
+    return tree, route
 
 
 def cases_for(run, ct, rng, net, tree_nested, n_subsets, with_exec, light=False):
@@ -77,13 +97,15 @@ def cases_for(run, ct, rng, net, tree_nested, n_subsets, with_exec, light=False)
         try:
             with core.watchdog(60):
                 tree = observe.build_tree(ct, net, ssa)
-                route = apply_plan(tree, net, plan, rng)
+                tree, route = apply_plan(tree, net, plan, rng)
                 desc["route"] = route
                 arrays = nets.canon_arrays(net) if with_exec else None
                 orders = observe.order_fns(rng)
                 ename = rng.choice(list(orders))
+                wname = rng.choice(list(orders))
+                desc["exec_order"], desc["warm_order"] = ename, wname
                 snap = observe.snapshot(net, tree, orders=orders, arrays=arrays,
-                                        exec_order=orders[ename], light=light)
+                                        exec_order=orders[ename], light=light, warm_order=orders[wname])
         except Exception as e:
             run.violation(f"tree construction / query raised {core.exc_text(e)}", desc, tags=["raised"])
             continue
@@ -145,7 +167,9 @@ def replay(run, desc):
     rng = random.Random(0)
     net = nets.Net.from_json(desc["net"])
     tree = observe.build_tree(ct, net, desc["ssa"])
-    apply_plan(tree, net, [tuple(p) for p in desc["plan"]], rng, route=desc.get("route"))
+    tree, _ = apply_plan(tree, net, [tuple(p) for p in desc["plan"]], rng, route=desc.get("route"))
     orders = observe.order_fns(rng)
-    snap = observe.snapshot(net, tree, orders=orders, arrays=nets.canon_arrays(net) if desc.get("exec") else None)
+    snap = observe.snapshot(net, tree, orders=orders, arrays=nets.canon_arrays(net) if desc.get("exec") else None,
+                            exec_order=orders.get(desc.get("exec_order"), None),
+                            warm_order=orders.get(desc.get("warm_order"), None) if desc.get("warm_order") in orders else "__none__")
     _judge(run, [(snap, desc)])
